@@ -36,13 +36,15 @@ class _LoadAndSave:
     customize the behavior if needed (for instance, to introduce additional locks).
     """
 
-    def __init__(self, collection):
+    def __init__(self, collection, load_first=True):
         self._collection = collection
+        self._load_first = load_first
 
     def __enter__(self):
         self._collection._thread_lock.__enter__()
         try:
-            self._collection._load()
+            if self._load_first:
+                self._collection._load()
         except BaseException as error:
             # __exit__ is not called when __enter__ raises, so the lock must
             # be released here.
@@ -424,6 +426,18 @@ class SyncedCollection(Collection):
                 self._save_to_resource()
             else:
                 self._root._save()
+
+    def _overwrite_context(self):
+        """Get the context in which to replace the entire contents (clear, reset).
+
+        A root collection need not load before being overwritten, but the same
+        locks as for any other modification must be held while modifying and
+        saving. A nested collection must load first like any other modification
+        because the rest of the root's data has to be preserved.
+        """
+        if self._root is None:
+            return self._LoadSaveType(self, load_first=False)
+        return self._load_and_save
 
     @abstractmethod
     def _update(self, data):
